@@ -164,7 +164,12 @@ pub fn deep_messages(seed: u64) -> Vec<AMsg> {
             }
         };
         for (ni, name) in ATTR_NAMES.iter().enumerate() {
-            let mut groups = vec![AGroup { tag: 1, attrs: vec![("attributes-charset".into(), AV::Str("Charset", "utf-8".into()))] }];
+            // the first operation group holds the name too (next to the two leading attributes), with its natural single value
+            let mut first = vec![("attributes-charset".to_string(), AV::Str("Charset", "utf-8".into())), ("attributes-natural-language".to_string(), AV::Str("NaturalLanguage", "en".into()))];
+            if !first.iter().any(|(n, _)| n == name) {
+                first.push((name.to_string(), val(kinds[(ni * 7) % 19], ni, &mut r)));
+            }
+            let mut groups = vec![AGroup { tag: 1, attrs: first }];
             for (ki, kind) in kinds.iter().enumerate() {
                 let tag = [1u8, 2, 4, 5][(ni + ki) % 4];
                 let v = val(kind, ni + ki, &mut r);
@@ -435,6 +440,36 @@ pub fn run(a: &Args) {
                                         sink.emit(&json!({"ev": "enc", "case": format!("{}-again", cid), "msg": m3.json(), "hdr": hdr_json(tz2.hdr),
                                             "toks": toks_json(&tz2.toks), "term": tz2.term, "rest": rest2}),
                                             &json!({"case": format!("{}-again", cid), "what": "encode, add(), encode again"}));
+                                    }
+                                }
+                                if _trial == 0 && ci % 4 == 1 && !msg.groups.is_empty() {
+                                    // history on a PARSER-made object: encode, parse, replace an existing attribute and add a
+                                    // new one through add(), encode (C03 judges that encoding: names unique, content = the model's)
+                                    let mut m4 = msg.clone();
+                                    let tag = m4.groups[0].tag;
+                                    let newv = gen_av("I", &mut r);
+                                    let newv2 = gen_av("K", &mut r);
+                                    let name = format!("added-{}", ci);
+                                    let replaced: Option<String> = m4.groups[0].attrs.first().map(|(n, _)| n.clone());
+                                    if let Some(rn) = &replaced {
+                                        m4.groups[0].attrs[0].1 = newv2.clone();
+                                        let _ = rn;
+                                    }
+                                    m4.groups[0].attrs.push((name.clone(), newv.clone()));
+                                    let b0 = bytes.clone();
+                                    if let Ok(Some(again)) = catch_unwind(AssertUnwindSafe(move || {
+                                        let mut req = IppParser::new(IppReader::new(Cursor::new(b0))).parse().ok()?;
+                                        if let Some(rn) = &replaced {
+                                            req.attributes_mut().add(DelimiterTag::from_u8(tag).unwrap(), IppAttribute::new(rn, newv2.to_ipp()));
+                                        }
+                                        req.attributes_mut().add(DelimiterTag::from_u8(tag).unwrap(), IppAttribute::new(&name, newv.to_ipp()));
+                                        Some(req.to_bytes().to_vec())
+                                    })) {
+                                        let tz2 = tokenize(&again);
+                                        let rest2 = tz2.end.map(|e| again.len() - e).unwrap_or(0);
+                                        sink.emit(&json!({"ev": "enc", "case": format!("{}-parsed-added", cid), "msg": m4.json(), "hdr": hdr_json(tz2.hdr),
+                                            "toks": toks_json(&tz2.toks), "term": tz2.term, "rest": rest2}),
+                                            &json!({"case": format!("{}-parsed-added", cid), "what": "encode, parse, add() (replace + new), encode"}));
                                     }
                                 }
                                 let tz = tokenize(&bytes);
